@@ -60,25 +60,29 @@ def r2(c):
     cons = P.constructors(RE, 'Exception', crate='rodbus')
     where = sorted({P.logical_name(x) for x, _, _ in cons})
     allowed = {GEF, '<rodbus::error::RequestError as core::convert::From<rodbus::exception::ExceptionCode>>::from'}
-    c.ob('constructors', set(where) <= allowed and GEF in where, 'RequestError::Exception is built only in get_error_for (and the From<ExceptionCode> conversion)', str(where), examined=len(cons))
+    # get_error_for builds it itself, or through that conversion (`exception.into()`)
+    conv_sites = [cs for cs in b.calls() if cs.declared in ('core::convert::Into::into', 'core::convert::From::from') and 'ExceptionCode' in (cs.gargs or '') and 'RequestError' in (cs.gargs or '')]
+    conv_callers = sorted({P.logical_name(cs.body) for bb in P.all_bodies(crate='rodbus') for cs in bb.calls() if cs.declared in ('core::convert::Into::into', 'core::convert::From::from')
+                           and 'exception::ExceptionCode' in (cs.gargs or '') and 'error::RequestError' in (cs.gargs or '') and '/#' not in (cs.gargs or '')})
+    c.ob('constructors', set(where) <= allowed and (GEF in where or bool(conv_sites)) and set(conv_callers) <= {GEF}, 'RequestError::Exception is built only in get_error_for (directly or through the From<ExceptionCode> conversion, which nobody else uses)', str(where) + str(conv_callers), examined=len(cons))
     facts = q.cmp_facts(b)
     ae = [cs for cs in b.calls('rodbus::common::function::FunctionCode::as_error') if q.is_name(b, cs.args[0], 'expected_function')]
     rd = one(b.calls('scursor::read::ReadCursor::read_u8'), 'read of the exception byte')
     ie = one(b.calls('scursor::read::ReadCursor::is_empty'), 'cursor.is_empty()')
-    for x, i, st in cons:
-        if P.logical_name(x) != GEF:
-            continue
-        node = ('b', i)
+    sites = [(('b', i), st['rv']['a'][0], loc_of(b, i, stmt=st)) for x, i, st in cons if P.logical_name(x) == GEF] + [(cs.node, cs.args[0], cs.loc()) for cs in conv_sites]
+    for node, code_op, where_ in sites:
+        i = node[1]
         ok1 = q.has_fact(b, node, 'eq', lambda o: q.is_name(b, o, 'function'), lambda o: q.sem(b, o).kind == 'call' and q.sem(b, o).cs in ae, facts)
         ok2 = q.dominated_by_any(b, q.outcomes(b, rd).get('Ok', []), node)
         ok3 = q.dominated_by_any(b, q.bool_edges(b, ie)['true'], node)
-        c.ob('exception/function', ok1, 'Exception requires function == expected.as_error()', '', loc_of(b, i, stmt=st))
-        c.ob('exception/byte-read', ok2, 'Exception requires the exception byte to be present', '', loc_of(b, i, stmt=st))
-        c.ob('exception/exact-length', ok3, 'Exception requires nothing after the exception byte', '', loc_of(b, i, stmt=st))
-        s = q.sem(b, st['rv']['a'][0])
+        c.ob('exception/function', ok1, 'Exception requires function == expected.as_error()', '', where_)
+        c.ob('exception/byte-read', ok2, 'Exception requires the exception byte to be present', '', where_)
+        c.ob('exception/exact-length', ok3, 'Exception requires nothing after the exception byte', '', where_)
+        s = q.sem(b, code_op)
         okc = s.kind == 'call' and s.cs.declared in ('core::convert::From::from', 'core::convert::Into::into') and 'ExceptionCode' in s.cs.gargs and \
             q.sem(b, s.cs.args[0]).kind == 'call' and q.sem(b, s.cs.args[0]).cs is rd
-        c.ob('exception/code', okc, 'the code reported is ExceptionCode::from(that byte)', repr(s), loc_of(b, i, stmt=st))
+        c.ob('exception/code', okc, 'the code reported is ExceptionCode::from(that byte)', repr(s), where_)
+    c.ob('exception/site', len(sites) >= 1, 'get_error_for has a place where the exception is produced', '%d' % len(sites), loc_of(b))
     ae_fn = P.fn('rodbus::common::function::FunctionCode::as_error')
     ors = [s for _, s in ae_fn.assigns() if s['rv']['r'] == 'bin' and s['rv']['op'] == 'BitOr' and any(q.const_val(ae_fn, a) == 0x80 for a in s['rv']['a'])]
     c.ob('as_error', len(ors) == 1, 'FunctionCode::as_error is get_value() | 0x80', '%d' % len(ors), loc_of(ae_fn))
